@@ -22,7 +22,8 @@ RULE = (
 )
 ASSUMPTIONS = [
     "stable markers = the Line2D drawn with marker 'o' in green, unstable markers = the PathCollection of ax.scatter; positions compared exactly (NaN points ignored)",
-    "step = 1 (the only value the SSI pole tables support); the order value is the column index, which is what mpe(order=...) accepts",
+    "step = 1 through the classes (the only value the SSI pole tables support); the order value is the column index, which is what mpe(order=...) accepts; "
+    "plot.stab_plot called directly also gets step 2 and 3: the order axis may then show the column index or index x step (one of the two for stable and unstable markers alike, at every drawing)",
 ]
 
 
@@ -114,13 +115,18 @@ def judge_stab(case):
     _tags(j, case, t, Lab)
     plt.close("all")
     fl = None if case["freqlim"] is None else tuple(case["freqlim"])
+    # function path: the documented `step` argument also takes 2 and 3; the order axis may then carry the column index
+    # or the model order (index x step) - either is accepted, but it must be the same at every drawing
+    step = (1, 1, 2, 3)[(case["table"]["seed"] // 2) % 4] if case["which"] == "function" else 1
+    if step != 1:
+        j.tag(f"step_{step}")
     if case["table"]["seed"] % 2 == 0:
         other = Fn * 1.37 + 0.11
-        sut(plot.stab_plot, other, np.ones_like(Lab), 1, Fn.shape[1] - 1, ordmin=0, freqlim=None, hide_poles=False)
+        sut(plot.stab_plot, other, np.ones_like(Lab), step, (Fn.shape[1] - 1) * step, ordmin=0, freqlim=None, hide_poles=False)
         sut(plot.cluster_plot, other, t["Xi"] * 0.5, np.ones_like(Lab), ordmin=0, freqlim=None, hide_poles=False)
         j.tag("earlier_figure_open")
     if case["which"] == "function":
-        out = sut(plot.stab_plot, Fn.copy(), Lab.copy(), 1, Fn.shape[1] - 1, ordmin=case["ordmin"], freqlim=fl, hide_poles=_hide(case), Fn_cov=None if t["Fn_cov"] is None else t["Fn_cov"].copy())
+        out = sut(plot.stab_plot, Fn.copy(), Lab.copy(), step, (Fn.shape[1] - 1) * step, ordmin=case["ordmin"], freqlim=fl, hide_poles=_hide(case), Fn_cov=None if t["Fn_cov"] is None else t["Fn_cov"].copy())
     else:
         alg = _make_alg(case, t, Lab)
         out = sut(alg.plot_stab, freqlim=fl, hide_poles=_hide(case))
@@ -129,16 +135,25 @@ def judge_stab(case):
         return j
     fig, ax = out
     order = np.tile(np.arange(Fn.shape[1])[None, :], (Fn.shape[0], 1)).astype(float)
+    maps = [1] if step == 1 else [1, step]  # admissible order-axis mappings; narrowed by the stable markers
     lines = _stable_line(ax)
     if j.check(len(lines) == 1, "stab-stable-artist", lambda: f"{len(lines)} green-circle Line2D artists"):
         got = _points(lines[0].get_xdata(), lines[0].get_ydata())
         exp = _expected(Fn, order, Lab, 1)
+        if step != 1:
+            fits = [m for m in (1, step) if got == _expected(Fn, order * m, Lab, 1)]
+            if fits:
+                maps = fits
+            exp = _expected(Fn, order * maps[0], Lab, 1)
         j.check(got == exp, "stab-stable-markers", lambda: f"stable markers differ: {len(got)} drawn, {len(exp)} expected; first drawn {got[:3]}, first expected {exp[:3]}")
     pts, ncol = _scatter_points(ax)
     if case["hide"]:
         j.check(pts == [], "stab-hidden-unstable", lambda: f"{len(pts)} unstable markers drawn although hidden")
     else:
-        exp = _expected(Fn, order, Lab, 0)
+        exp = _expected(Fn, order * maps[0], Lab, 0)
+        for m in maps[1:]:
+            if pts == _expected(Fn, order * m, Lab, 0):
+                exp = pts
         j.check(pts == exp, "stab-unstable-markers", lambda: f"unstable markers differ: {len(pts)} drawn, {len(exp)} expected; first drawn {pts[:3]}, first expected {exp[:3]}")
     if fl is not None:
         j.check(tuple(np.round(ax.get_xlim(), 9)) == tuple(np.round(fl, 9)), "stab-freqlim", lambda: f"xlim {ax.get_xlim()} vs {fl}")
@@ -243,10 +258,10 @@ def judge_cmif(case):
 
 
 SUBS = [
-    Sub("stab", judge_stab, diagram_case(), quick=120, thorough=3000,
+    Sub("stab", judge_stab, diagram_case(), quick=120, thorough=9000,
         rule="plot.stab_plot and SSIcov/SSIdat/pLSCF.plot_stab: stable markers = {(Fn, column index): Lab=1}, unstable markers (when shown) = the other finite poles, none for NaN cells"),
-    Sub("cluster", judge_cluster, diagram_case(), quick=120, thorough=3000,
+    Sub("cluster", judge_cluster, diagram_case(), quick=120, thorough=9000,
         rule="plot.cluster_plot and the classes' plot_cluster: the same poles at (Fn, Xi)"),
-    Sub("cmif", judge_cmif, cmif_case(), quick=100, thorough=3000,
+    Sub("cmif", judge_cmif, cmif_case(), quick=100, thorough=9000,
         rule="plot.CMIF_plot / FDD.plot_CMIF: nSv curves over the whole grid, y = 10 log10(S_val[k,k,:]/max S_val[0,0,:]), for 'all' and every admissible integer"),
 ]
